@@ -86,6 +86,34 @@ func checkAll(e *vkit.Env, t *tree, when string) {
 			vrt.Assert(string(b.NextHash) == next, "next-link-follows-main-chain")
 		}
 	}
+	// branch tips: exactly the stored blocks nothing stored builds on
+	if tips, err := l.GetBranchInfo([]byte{}, -1); err == nil {
+		got := map[string]bool{}
+		for _, x := range tips {
+			got[x] = true
+		}
+		ok := true
+		nLeaves := 0
+		for i, n := range t.nodes {
+			if n.removed {
+				ok = ok && !got[n.id]
+				continue
+			}
+			leaf := true
+			for _, m := range t.nodes {
+				if !m.removed && m.parent == i {
+					leaf = false
+				}
+			}
+			if leaf {
+				nLeaves++
+			}
+			ok = ok && got[n.id] == leaf
+		}
+		vrt.Assert(ok && len(got) == nLeaves, "branch-tips-are-the-leaves-of-the-stored-tree")
+	} else {
+		vrt.Assert(false, "branch-tips-are-the-leaves-of-the-stored-tree")
+	}
 	// by height: exactly the main chain, nothing above the tip
 	for h := int64(0); h <= tip.height+1; h++ {
 		b, err := l.QueryBlockByHeight(h)
@@ -285,17 +313,36 @@ func runWith(N int, truncate, invalid bool) {
 		t.tip = target
 		vrt.Cover("truncation-removed-blocks", k+1 < len(trunk))
 		checkAll(e, t, "truncate")
-		// the chain goes on from the new tip
-		cb := vkit.Coinbase("cbT", "M", []byte{7})
-		b := vkit.Block([]byte(t.nodes[target].id), 99, []*pb.Transaction{cb})
-		st := e.L.ConfirmBlock(b, false)
-		vrt.Assert(st.Succ, "valid-block-confirmed")
-		if !st.Succ {
-			return
+		// the chain goes on: from the new tip, or from any other block still stored (a side branch
+		// cut to the same height may take over); a removed block is no parent any more
+		pp := target
+		if anyParentAfterTruncate {
+			pp = vrt.Choice("parent-after-truncate", len(t.nodes))
 		}
-		t.nodes = append(t.nodes, &node{id: string(b.Blockid), parent: target, height: t.nodes[target].height + 1, txs: []string{string(cb.Txid)}, order: 99, blk: b})
-		t.tip = len(t.nodes) - 1
-		checkAll(e, t, "extend-after-truncate")
+		cb := vkit.Coinbase("cbT", "M", []byte{7})
+		b := vkit.Block([]byte(t.nodes[pp].id), 99, []*pb.Transaction{cb})
+		st := e.L.ConfirmBlock(b, false)
+		if t.nodes[pp].removed {
+			vrt.Assert(!st.Succ, "child-of-truncated-block-refused")
+			vrt.Cover("child-of-truncated-block-submitted", true)
+			t.refused = append(t.refused, b.Blockid)
+			t.ghost = append(t.ghost, "cbT")
+			checkAll(e, t, "child-of-truncated")
+		} else {
+			vrt.Assert(st.Succ, "valid-block-confirmed")
+			if !st.Succ {
+				return
+			}
+			nn := &node{id: string(b.Blockid), parent: pp, height: t.nodes[pp].height + 1, txs: []string{string(cb.Txid)}, order: 99, blk: b}
+			t.nodes = append(t.nodes, nn)
+			if nn.height > t.nodes[t.tip].height {
+				t.tip = len(t.nodes) - 1
+			}
+			if anyParentAfterTruncate {
+				vrt.Cover("side-branch-takes-over-after-truncate", pp != target && t.tip == len(t.nodes)-1)
+			}
+			checkAll(e, t, "extend-after-truncate")
+		}
 	}
 	// a reopened instance answers the same
 	e2 := *e
@@ -306,6 +353,15 @@ func runWith(N int, truncate, invalid bool) {
 func VerifC04Quick()    { run(3, false) }
 func VerifC04Thorough() { run(5, false) }
 func VerifC04Truncate() { run(3, true) }
+
+// anyParentAfterTruncate: the block confirmed after a truncation goes on any block of the tree
+// (stored or removed) instead of the new tip only.
+var anyParentAfterTruncate bool
+
+func VerifC04TruncateThenAny() {
+	anyParentAfterTruncate = true
+	run(3, true)
+}
 func VerifC04Refused()  { runWith(2, false, true) }
 func VerifC04Refused3() { runWith(3, false, true) }
 
